@@ -170,11 +170,13 @@ package interp
 //@ wf lexer: self.env != nil
 
 //@ func expand
+//@   props C11 C19
 //@   mode bv64
 //@   requires yylex is *lexer && yylex.(*lexer) != nil
 //@   ensures x.s == "" ==> result0 == x.n && result1
 
 //@ func calculate
+//@   props C11 C19
 //@   mode bv64
 //@   faults div shift
 //@   requires yylex is *lexer && yylex.(*lexer) != nil
@@ -192,6 +194,7 @@ package interp
 //@   ensures l.s == "" && r.s == "" ==> ok
 
 //@ func compare
+//@   props C11 C19
 //@   mode bv64
 //@   requires yylex is *lexer && yylex.(*lexer) != nil
 //@   ensures x.s == ""
@@ -203,5 +206,153 @@ package interp
 //@   ensures l.s == "" && r.s == "" && op == "!=" ==> x.n == (l.n != r.n ? 1 : 0)
 
 //@ func (*ExecEnv).Eval$1
+//@   props C11 C19
 //@   recovers runtime
 //@   requires l != nil
+
+// ---- grammar actions of arith.go.y (C11) ----
+//
+// The actions are cut out of the generated arith.go on every run (one
+// function per production, see DESIGN 2.7).  $1..$9 are the right-hand-side
+// values, yyVAL starts as $1 (the goyacc default action) and the result is
+// the value left in yyVAL.  Trusted: the goyacc driver and tables, and that
+// an operator token carries its spelling (lexer.Lex: lval.op = ops[tok]).
+
+//@ action *
+//@   mode bv64
+//@   props C11 C19
+//@   requires yylex is *lexer && yylex.(*lexer) != nil
+//@   requires yypt >= $K && yypt + 1 <= len(yyS)
+//@   requires yyVAL == $1
+
+//@ action arith: expr
+//@   ensures $1.expr.s == "" ==> yylex.(*lexer).n == $1.expr.n
+
+//@ action primary_expr: NUMBER
+//@   site ERR = call Error
+//@   ensures result.expr.s == ""
+//@   ensures parseok($1.expr.s) ==> result.expr.n == parseint($1.expr.s) && !site(ERR)
+//@   ensures !parseok($1.expr.s) ==> site(ERR)
+
+//@ action primary_expr: '(' expr ')'
+//@   ensures result.expr == $2.expr
+
+//@ action postfix_expr: postfix_expr INC
+//@   site ERR = call Error
+//@   site SET = call interp.(*ExecEnv).Set
+//@   ensures result.expr.s == ""
+//@   ensures $1.expr.s == "" ==> site(ERR) && !site(SET)
+//@   ensures $1.expr.s != "" ==> !site(ERR)
+//@   assert at call interp.(*ExecEnv).Set: post-inc: ok && arg1 == $1.expr.s && yyVAL.expr.n == n && arg2 == itoa(n + 1)
+
+//@ action postfix_expr: postfix_expr DEC
+//@   site ERR = call Error
+//@   site SET = call interp.(*ExecEnv).Set
+//@   ensures result.expr.s == ""
+//@   ensures $1.expr.s == "" ==> site(ERR) && !site(SET)
+//@   ensures $1.expr.s != "" ==> !site(ERR)
+//@   assert at call interp.(*ExecEnv).Set: post-dec: ok && arg1 == $1.expr.s && yyVAL.expr.n == n && arg2 == itoa(n - 1)
+
+//@ action unary_expr: INC unary_expr
+//@   site ERR = call Error
+//@   site SET = call interp.(*ExecEnv).Set
+//@   ensures result.expr.s == ""
+//@   ensures $2.expr.s == "" ==> site(ERR) && !site(SET)
+//@   ensures $2.expr.s != "" ==> !site(ERR)
+//@   assert at call interp.(*ExecEnv).Set: pre-inc: ok && arg1 == $2.expr.s && yyVAL.expr.n == n + 1 && arg2 == itoa(n + 1)
+
+//@ action unary_expr: DEC unary_expr
+//@   site ERR = call Error
+//@   site SET = call interp.(*ExecEnv).Set
+//@   ensures result.expr.s == ""
+//@   ensures $2.expr.s == "" ==> site(ERR) && !site(SET)
+//@   ensures $2.expr.s != "" ==> !site(ERR)
+//@   assert at call interp.(*ExecEnv).Set: pre-dec: ok && arg1 == $2.expr.s && yyVAL.expr.n == n - 1 && arg2 == itoa(n - 1)
+
+//@ action unary_expr: unary_op unary_expr
+//@   ensures result.expr.s == ""
+//@   ensures $2.expr.s == "" && $1.op == "+" ==> result.expr.n == $2.expr.n
+//@   ensures $2.expr.s == "" && $1.op == "-" ==> result.expr.n == -$2.expr.n
+//@   ensures $2.expr.s == "" && $1.op == "~" ==> result.expr.n == ^$2.expr.n
+//@   ensures $2.expr.s == "" && $1.op == "!" ==> result.expr.n == ($2.expr.n == 0 ? 1 : 0)
+
+//@ action mul_expr: mul_expr '*' unary_expr
+//@   requires $2.op == "*"
+//@   ensures result.expr.s == "" && ($1.expr.s == "" && $3.expr.s == "" ==> result.expr.n == $1.expr.n * $3.expr.n)
+//@ action mul_expr: mul_expr '/' unary_expr
+//@   faults div
+//@   requires $2.op == "/"
+//@   ensures result.expr.s == "" && ($1.expr.s == "" && $3.expr.s == "" ==> result.expr.n == $1.expr.n / $3.expr.n)
+//@ action mul_expr: mul_expr '%' unary_expr
+//@   requires $2.op == "%"
+//@   ensures result.expr.s == "" && ($1.expr.s == "" && $3.expr.s == "" ==> result.expr.n == $1.expr.n % $3.expr.n)
+//@ action add_expr: add_expr '+' mul_expr
+//@   requires $2.op == "+"
+//@   ensures result.expr.s == "" && ($1.expr.s == "" && $3.expr.s == "" ==> result.expr.n == $1.expr.n + $3.expr.n)
+//@ action add_expr: add_expr '-' mul_expr
+//@   requires $2.op == "-"
+//@   ensures result.expr.s == "" && ($1.expr.s == "" && $3.expr.s == "" ==> result.expr.n == $1.expr.n - $3.expr.n)
+//@ action shift_expr: shift_expr LSH add_expr
+//@   requires $2.op == "<<"
+//@   ensures result.expr.s == "" && ($1.expr.s == "" && $3.expr.s == "" ==> result.expr.n == $1.expr.n << $3.expr.n)
+//@ action shift_expr: shift_expr RSH add_expr
+//@   requires $2.op == ">>"
+//@   ensures result.expr.s == "" && ($1.expr.s == "" && $3.expr.s == "" ==> result.expr.n == $1.expr.n >> $3.expr.n)
+//@ action rel_expr: rel_expr '<' shift_expr
+//@   requires $2.op == "<"
+//@   ensures result.expr.s == "" && ($1.expr.s == "" && $3.expr.s == "" ==> result.expr.n == ($1.expr.n < $3.expr.n ? 1 : 0))
+//@ action rel_expr: rel_expr '>' shift_expr
+//@   requires $2.op == ">"
+//@   ensures result.expr.s == "" && ($1.expr.s == "" && $3.expr.s == "" ==> result.expr.n == ($1.expr.n > $3.expr.n ? 1 : 0))
+//@ action rel_expr: rel_expr LE shift_expr
+//@   requires $2.op == "<="
+//@   ensures result.expr.s == "" && ($1.expr.s == "" && $3.expr.s == "" ==> result.expr.n == ($1.expr.n <= $3.expr.n ? 1 : 0))
+//@ action rel_expr: rel_expr GE shift_expr
+//@   requires $2.op == ">="
+//@   ensures result.expr.s == "" && ($1.expr.s == "" && $3.expr.s == "" ==> result.expr.n == ($1.expr.n >= $3.expr.n ? 1 : 0))
+//@ action eq_expr: eq_expr EQ rel_expr
+//@   requires $2.op == "=="
+//@   ensures result.expr.s == "" && ($1.expr.s == "" && $3.expr.s == "" ==> result.expr.n == ($1.expr.n == $3.expr.n ? 1 : 0))
+//@ action eq_expr: eq_expr NE rel_expr
+//@   requires $2.op == "!="
+//@   ensures result.expr.s == "" && ($1.expr.s == "" && $3.expr.s == "" ==> result.expr.n == ($1.expr.n != $3.expr.n ? 1 : 0))
+//@ action and_expr: and_expr '&' eq_expr
+//@   requires $2.op == "&"
+//@   ensures result.expr.s == "" && ($1.expr.s == "" && $3.expr.s == "" ==> result.expr.n == $1.expr.n & $3.expr.n)
+//@ action xor_expr: xor_expr '^' and_expr
+//@   requires $2.op == "^"
+//@   ensures result.expr.s == "" && ($1.expr.s == "" && $3.expr.s == "" ==> result.expr.n == $1.expr.n ^ $3.expr.n)
+//@ action or_expr: or_expr '|' xor_expr
+//@   requires $2.op == "|"
+//@   ensures result.expr.s == "" && ($1.expr.s == "" && $3.expr.s == "" ==> result.expr.n == $1.expr.n | $3.expr.n)
+
+// Logical operators: the value, and the right operand is not even looked up
+// when the left one decides (its lookup is what could raise an error).
+//@ action land_expr: land_expr LAND or_expr
+//@   site RIGHT = call interp.expand#2
+//@   ensures result.expr.s == ""
+//@   ensures $1.expr.s == "" && $3.expr.s == "" ==> result.expr.n == ($1.expr.n != 0 && $3.expr.n != 0 ? 1 : 0)
+//@   ensures $1.expr.s == "" && $1.expr.n == 0 ==> !site(RIGHT) && result.expr.n == 0
+//@ action lor_expr: lor_expr LOR land_expr
+//@   site RIGHT = call interp.expand#2
+//@   ensures result.expr.s == ""
+//@   ensures $1.expr.s == "" && $3.expr.s == "" ==> result.expr.n == ($1.expr.n != 0 || $3.expr.n != 0 ? 1 : 0)
+//@   ensures $1.expr.s == "" && $1.expr.n != 0 ==> !site(RIGHT) && result.expr.n == 1
+//@ action cond_expr: lor_expr '?' expr ':' cond_expr
+//@   site THEN = call interp.expand#2
+//@   site ELSE = call interp.expand#3
+//@   ensures result.expr.s == ""
+//@   ensures $1.expr.s == "" && $1.expr.n != 0 ==> !site(ELSE) && ($3.expr.s == "" ==> result.expr.n == $3.expr.n)
+//@   ensures $1.expr.s == "" && $1.expr.n == 0 ==> !site(THEN) && ($5.expr.s == "" ==> result.expr.n == $5.expr.n)
+
+//@ action expr: unary_expr assign_op expr
+//@   faults div shift
+//@   site ERR = call Error
+//@   site SET = call interp.(*ExecEnv).Set
+//@   requires len($2.op) >= 1
+//@   ensures result.expr.s == ""
+//@   ensures $1.expr.s == "" ==> site(ERR) && !site(SET)
+//@   ensures $1.expr.s != "" ==> !site(ERR)
+//@   ensures $1.expr.s != "" && $2.op == "=" && $3.expr.s == "" ==> result.expr.n == $3.expr.n && site(SET)
+//@   assert at call interp.(*ExecEnv).Set: assign: ok && arg1 == $1.expr.s && arg2 == itoa(yyVAL.expr.n)
+//@   assert at call interp.calculate: compound: arg1 == $1.expr && arg3 == $3.expr && arg2 == $2.op[:len($2.op)-1] && $2.op != "="
